@@ -67,6 +67,13 @@ def s_apply(ctx, container_is_function=False):
     container = GraphLike(list(nodes), {})
     existing = Tok("existing_init")
     container.initializers = {"w": existing}
+    # names an earlier pass / the model author may already have taken (the renaming must probe, not guess)
+    taken = {}
+    for nm in ("w_0", "w_1", "w_2"):
+        if ctx.choose(2, f"an initializer named {nm} exists") == 1:
+            taken[nm] = Tok("existing_" + nm)
+    container.initializers.update(taken)
+    before_inits = dict(container.initializers)
     if container_is_function:
         container_cls = ir.Function
     model = SObj(ir.Model, "model")
@@ -154,14 +161,14 @@ def s_apply(ctx, container_is_function=False):
                   new_nodes == delta.fields["new_nodes"] and old_vals == delta.fields["match"].fields["outputs"]
                   and new_vals == delta.fields["new_outputs"], CL)
         for t in delta.fields["new_initializers"]:
-            ctx.check("C07.apply.new_initializer_registered_before_the_replacement", inits_then.get(t.name) is t or
-                      (t.name == "w" and inits_then.get("w") is existing), CL_INIT)
+            ctx.check("C07.apply.new_initializer_registered_before_the_replacement", inits_then.get(t.name) is t, CL_INIT)
         ctx.check("C07.apply.rule_name_tag_on_new_nodes_only",
                   all(n.metadata_props.get(rr.RULE_NAME_TAG) == rule.fields["name"] for n in delta.fields["new_nodes"])
                   and all(rr.RULE_NAME_TAG not in n.fields["metadata_props"] for n in nodes), CL)
-    ctx.check("C07.apply.existing_initializer_with_the_same_name_is_not_replaced", container.initializers.get("w") is existing, CL_INIT)
+    ctx.check("C07.apply.existing_initializer_with_the_same_name_is_not_replaced",
+              all(container.initializers.get(k) is v for k, v in before_inits.items()), CL_INIT)
     if container_is_function:
-        ctx.check("C07.apply.no_initializers_added_to_functions", set(container.initializers) == {"w"}, CL_INIT)
+        ctx.check("C07.apply.no_initializers_added_to_functions", set(container.initializers) == set(before_inits), CL_INIT)
     # each (container) gets every rule's pre and post visitor once: main container + the subgraph
     n_containers = 2
     ctx.check("C07.apply.visitors_called_once_per_container_and_rule",
@@ -269,7 +276,9 @@ def s_try_rewrite(ctx):
     tp.fields["num_outputs"] = n_pat
     remove_nodes = ctx.choose(2, "remove_nodes") == 0
     rule.fields.update(match=f_match, _replacement_pattern=rep, _target_pattern=tp, remove_nodes=remove_nodes)
-    container, main = SObj(object, "container"), SObj(object, "maingraph")
+    kind = ["main graph", "function", "subgraph of a control-flow node"][ctx.choose(3, "container")]
+    main = SObj(ir.Graph, "maingraph")
+    container = main if kind == "main graph" else SObj(ir.Function if kind == "function" else ir.Graph, "container")
     container.fields["opset_imports"] = {}
     main.fields["opset_imports"] = {}
     model = SObj(ir.Model, "model")
@@ -308,3 +317,137 @@ SCENARIOS = [
     Scenario("C07.update_opset_imports", s_update_opset_imports, F("_update_opset_imports")),
     Scenario("C07.try_rewrite", s_try_rewrite, F("RewriteRule.try_rewrite")),
 ]
+
+
+# ------------------------------------------------------------------ as_function: overload names, commute ---
+
+class FnTable:
+    """model.functions seen through `key in functions`: the set of overload names taken for (domain, name)"""
+
+    def __contains__(self, key):
+        raise AssertionError
+
+
+def s_get_new_overload(ctx):
+    """_get_new_overload: the returned overload is not taken, for ANY set of existing overloads (unbounded: loop
+    invariant `overload >= 1`; the loop exits only through the membership test)."""
+    from pyvc.interp import LoopSpec
+    from pyvc.values import SSet, SBool, StrSort
+    rr = _rr()
+    used = ctx.const("taken_overloads", z3.SetSort(StrSort))
+
+    def inv(interp, env, k, pre, it):
+        return [("overload_positive", term(env.lookup("overload")) >= 1)]
+    loops = {("_get_new_overload", 0): LoopSpec({"overload": lambda I: SInt(I.ctx.int("overload")),
+                                                 "overload_name": lambda I: SStr(I.ctx.const("overload_name", StrSort))}, inv)}
+    I = Interp(ctx, loops=loops)
+    asked = []
+
+    def m_contains(interp, slf, key):
+        ok = isinstance(key, tuple) and len(key) == 3 and key[0] == "some.domain" and key[1] == "Fn"
+        asked.append(ok)
+        return SBool(z3.IsMember(term(key[2]), used)) if ok else False
+    I.models[FnTable.__contains__] = m_contains
+    model = SObj(object, "model")
+    model.fields["functions"] = SObj(FnTable, "functions")
+    r = I.run_closure(I.closure_of(rr._get_new_overload), [model, "some.domain", "Fn"], {})
+    ctx.check("C07.as_function.new_overload_is_not_taken", z3.Not(z3.IsMember(term(r), used)) if isinstance(r, (str, SStr)) else False,
+              "C07: 'the functions the replacement needs are added, and all other ... are untouched' — an existing function is never replaced")
+    ctx.check("C07.as_function.new_overload_probes_the_identifier_of_this_function", all(asked) and len(asked) >= 1, CL_INIT)
+
+
+def s_commute(ctx):
+    """RewriteRule.commute(): every commuted copy is the same rule on another pattern — same replacement, condition,
+    matcher class, name and flags (remove_nodes, as_function, visitors)."""
+    import onnx_ir as ir
+    rr = _rr()
+    I = Interp(ctx)
+    rule = SObj(rr.RewriteRule, "rule")
+    pats = [Tok("p0"), Tok("p1")]
+    tp = SObj(object, "target_pattern")
+
+    def f_commute():
+        raise AssertionError
+    I.models[f_commute] = lambda interp: list(pats)
+    tp.fields["commute"] = f_commute
+
+    class Matcher:
+        def __init__(self, pattern):
+            self.pattern = pattern
+    as_function = ctx.choose(2, "as_function") == 1
+    remove_nodes = ctx.choose(2, "remove_nodes") == 1
+    fields = dict(_target_pattern=tp, _replacement_pattern=Tok("replacement"), _condition_function=Tok("condition"), _matcher=Matcher(Tok("orig")),
+                  _verbose=0, name="rule-name", remove_nodes=remove_nodes, graph_pre_visitor=Tok("pre"), graph_post_visitor=Tok("post"),
+                  as_function=as_function)
+    rule.fields.update(fields)
+    made = []
+
+    def m_rule(interp, *a, **k):
+        made.append((a, k))
+        return Tok(f"copy{len(made)}")
+    I.models[rr.RewriteRule] = m_rule
+    r = I.run_closure(I.closure_of(rr.RewriteRule.commute), [rule], {})
+    import inspect
+    params = list(inspect.signature(rr.RewriteRule.__init__).parameters)[1:]
+    ok = len(made) == 2 and isinstance(r, list) and len(r) == 2
+    ctx.check("C06.commute.one_copy_per_commuted_pattern", ok, "C06: 'commute=True generates the operand-swapped variants'")
+    if not ok:
+        return
+    for (a, k), p in zip(made, pats):
+        bound = dict(zip(params, a))
+        bound.update(k)
+        want = {"target_pattern": p, "replacement_pattern": fields["_replacement_pattern"], "condition_function": fields["_condition_function"],
+                "verbose": 0, "name": "rule-name", "remove_nodes": remove_nodes, "graph_pre_visitor": fields["graph_pre_visitor"],
+                "graph_post_visitor": fields["graph_post_visitor"], "as_function": as_function}
+        got = {k2: bound.get(k2, inspect.signature(rr.RewriteRule.__init__).parameters[k2].default) for k2 in want}
+        ctx.check("C07.commute.copy_keeps_every_setting_of_the_rule", all(got[k2] is want[k2] or got[k2] == want[k2] for k2 in want),
+                  "C07: a rule applied with commute=True behaves like the rule on each operand order (as_function, remove_nodes, visitors, name)")
+        m = bound.get("matcher")
+        ctx.check("C06.commute.copy_gets_a_matcher_of_the_same_class_on_the_new_pattern", isinstance(m, Matcher) and m.pattern is p,
+                  "C06: commuted variants are matched by the same matcher")
+
+
+SCENARIOS += [
+    Scenario("C07.as_function.get_new_overload", s_get_new_overload, F("_get_new_overload")),
+    Scenario("C07.commute", s_commute, F("RewriteRule.commute", "RewriteRule.commute.replace_pattern")),
+]
+
+
+def s_get_new_overload_tables(ctx):
+    """The same contract on concrete function tables (any implementation that inspects the table — membership,
+    iteration, counting — can be executed): every subset of the overloads 1..3 of this function, plus unrelated
+    functions with the same name in another domain / another name in the same domain."""
+    import onnx_ir as ir
+    rr = _rr()
+    I = Interp(ctx)
+    table = {}
+
+    def add(domain, name, overload):
+        f = SObj(ir.Function, f"fn_{domain}_{name}_{overload}")
+        f.fields.update(domain=domain, name=name, overload=overload)
+
+        def ident():
+            raise AssertionError
+        I.models[ident] = lambda interp: (domain, name, overload)
+        f.fields["identifier"] = ident
+        table[(domain, name, overload)] = f
+    for ov in ("1", "2", "3"):
+        if ctx.choose(2, f"overload {ov} of this function exists") == 1:
+            add("some.domain", "Fn", ov)
+    if ctx.choose(2, "a function of the same name exists in another domain") == 1:
+        add("other.domain", "Fn", "1")
+    if ctx.choose(2, "another function exists in the same domain") == 1:
+        add("some.domain", "Other", "1")
+    if ctx.choose(2, "an overload without a number exists") == 1:
+        add("some.domain", "Fn", "")
+    model = SObj(ir.Model, "model")
+    model.fields["functions"] = table
+    before = dict(table)
+    r = I.run_closure(I.closure_of(rr._get_new_overload), [model, "some.domain", "Fn"], {})
+    ctx.check("C07.as_function.new_overload_is_not_taken", isinstance(r, str) and ("some.domain", "Fn", r) not in before,
+              "C07: 'the functions the replacement needs are added, and all other ... are untouched' — an existing function is never replaced")
+    ctx.check("C07.as_function.get_new_overload_does_not_modify_the_model", table == before, CL_INIT)
+
+
+SCENARIOS.append(Scenario("C07.as_function.get_new_overload[tables]", s_get_new_overload_tables, F("_get_new_overload"), kind="bounded",
+                          bound="function tables over overloads 1..3 of the function, an unnumbered overload and two unrelated functions (all 64 subsets)"))
